@@ -22,6 +22,9 @@ U_EXT = "_/#aA1é:b"
 P_ATOMS = ["a", "A", "b", "ab", "a.b", "GO", "go", "http", "é", "", "B", "x y", "a_b", "urn", "GO:x", "a/b", "p|q", " a", "a ", "1", "http://x/", "ſ", "İ", "a\nb", "ß", "ς", "obo:go",
            "\u00e9x", "e\u0301x", "a+b", "a*", "(a)", "[a]", "a?b", "^a$", "p" * 70 + "a", "p" * 70 + "b"]
 IDS = ["", "1", "0001", "a/b", "a#b", "a b", "é", "x", "a_1", "A_", "//x", "b", "_", "GO:1", "a\nb", "?q=1&r=2", "a%20b", " 1", "1 ", "x" * 300, "\t"]
+# strings on which URL / IRI machinery underneath (urllib.parse, routing, normalisation) has opinions of its own
+URL_HOSTILE = ["http://[2001:db8::1/x", "//[x", "http://a\uff0fb/c", "http://x/%41", "http://x/a%2Fb", "HTTP://x/", "http://x:80/", "http://u@x/",
+               "cafe\u0301:1", "caf\u00e9:1", "\u212b:1", "\u2126", "a:\ufeffb"]
 UNICODE = ["日本", "é́", "😀", "ß", "İ", "ǅ", "​", "퟿", "\U0010ffff"]
 PATTERNS = [None, None, "^\\d+$", "^[A-Z]{2}\\d{4}$", "", "a|b", "\\\\"]
 
@@ -503,8 +506,20 @@ def query_strings(recs, d, rng, extra=()):
         qs |= {p, p + d + "1"}
     for u in SPECIAL_URIS:
         qs |= {u + "1", u}
+    qs |= set(URL_HOSTILE)
     for u in allu:
         qs |= {u, u[:-1], u + "1", u + rng.choice(IDS), u + rng.choice(UNICODE)}
+        if u:
+            # the same URI prefix with one character percent-encoded, or spelt in the other Unicode normalisation form:
+            # different strings, recognised only if registered as such
+            i = rng.randrange(len(u))
+            qs.add(u[:i] + "%%%02X" % (ord(u[i]) & 0xFF) + u[i + 1:] + "1")
+            import unicodedata
+
+            for form in ("NFC", "NFD"):
+                v = unicodedata.normalize(form, u)
+                if v != u:
+                    qs.add(v + "1")
         qs |= {u + ch for ch in "_/aA:"}
         if u:
             qs.add(u[:-1] + rng.choice(U_EXT))
